@@ -2331,7 +2331,7 @@ XPathProcessorImpl::Step()
         // Tell how long the entire step is.
         m_expression->updateOpCodeLength(opPos);
     }
-    else if (tokenIs(XalanUnicode::charRightParenthesis) == false)
+    else
     {
         error(
             XalanMessages::UnexpectedTokenFound_1Param,
